@@ -485,6 +485,13 @@ impl<'a> Gen<'a> {
         b
     }
 }
+fn always_exits(s: &Stmt) -> bool {
+    match s {
+        Stmt::Ret(_) | Stmt::Brk | Stmt::Cont => true,
+        Stmt::If(_, t, e) => t.iter().any(always_exits) && e.iter().any(always_exits),
+        _ => false,
+    }
+}
 fn gen_prog(rng: &mut Rng, known: bool) -> Prog {
     let nf = 1 + rng.below(5) as usize;
     let mut g = Gen { rng, known, nf, nogc: vec![], leaf: vec![], parent: vec![], fails: 0 };
@@ -517,9 +524,9 @@ fn gen_prog(rng: &mut Rng, known: bool) -> Prog {
             let mut rest = g.block(f as i64, 0, false, 4);
             // every child is referenced at least once (an unused `let` would be deleted at -O2)
             for &c in &ch {
-                let pos = g.rng.below(rest.len() as u64 + 1) as usize;
-                let at_end_after_abrupt = pos == rest.len() && matches!(rest.last(), Some(Stmt::Ret(_)));
-                let pos = if at_end_after_abrupt { 0 } else { pos };
+                // ... at a position that is not dead code (after a statement that always leaves the block)
+                let live = rest.iter().position(always_exits).unwrap_or(rest.len());
+                let pos = g.rng.below(live as u64 + 1) as usize;
                 rest.insert(pos, Stmt::X(Expr::Call(c)));
             }
             body.extend(rest);
